@@ -654,7 +654,15 @@ func (c *Client) Start() (addr net.Addr, err error) {
 		cmd = exec.Command("")
 	}
 	if !c.config.SkipHostEnv {
-		cmd.Env = append(cmd.Env, os.Environ()...)
+		for _, kv := range os.Environ() {
+			// A host that is itself a plugin carries these variables from
+			// its own launch. They are set below only when this client's
+			// configuration asks for them, so they must not be inherited.
+			if isConditionalPluginEnv(kv) {
+				continue
+			}
+			cmd.Env = append(cmd.Env, kv)
+		}
 	}
 	cmd.Env = append(cmd.Env, env...)
 	cmd.Stdin = os.Stdin
@@ -945,6 +953,18 @@ func (c *Client) Start() (addr net.Addr, err error) {
 
 	c.address = addr
 	return
+}
+
+// isConditionalPluginEnv reports whether kv ("KEY=value") sets one of the
+// negotiation variables that Start passes to the plugin only for certain
+// configurations (AutoMTLS, gRPC broker multiplexing, Unix socket options).
+func isConditionalPluginEnv(kv string) bool {
+	for _, key := range []string{"PLUGIN_CLIENT_CERT", envMultiplexGRPC, EnvUnixSocketGroup, EnvUnixSocketDir} {
+		if strings.HasPrefix(kv, key+"=") {
+			return true
+		}
+	}
+	return false
 }
 
 // loadServerCert is used by AutoMTLS to read an x.509 cert returned by the
